@@ -225,6 +225,43 @@ theorem apply_refuses_pathless (ls : Str) (r : Refactoring) (fs : FS)
     rw [hw] at he; simp only at he; subst he
     rfl
 
+/-! ## the name a changed file is announced under (`+++` header) -/
+
+/- FULL (false of the unchanged code, see `to_path_string_prefix_witness`):
+   toPath Gen.C07.toPathMode [(old, new)] p = renamedPath old new p   for all paths. -/
+
+/-- `rename` really moves `q` to `renamedPath old new q` -/
+theorem rename_moves (fs : FS) (old new q : Path) (h : old <+: q) :
+    rename fs old new (renamedPath old new q) = fs q := by
+  obtain ⟨rest, rfl⟩ := h
+  simp [renamedPath, rename]
+
+/-- component-wise `calculate_to_path` (the proposed fix) announces exactly that name -/
+theorem to_path_components (old new p : Path) :
+    toPath "components" [(old, new)] p = renamedPath old new p := by
+  simp [toPath]
+
+/-- the code as it is replaces a *string* prefix: untouched when the renamed path is not a
+string prefix, rewritten when it is — also when the match ends in the middle of a component -/
+theorem to_path_string_partial (f t p : Str) :
+    (f.isPrefixOf p = false → toPathStr [(f, t)] p = p) ∧
+    (∀ rest, toPathStr [(f, t)] (f ++ rest) = t ++ rest) := by
+  constructor
+  · intro h
+    have h' : ¬ f <+: p := by
+      intro hp; rw [← List.isPrefixOf_iff_prefix] at hp; rw [hp] at h; cases h
+    simp [toPathStr, h']
+  · intro rest
+    simp [toPathStr]
+
+/-- counter-witness, reproduced on the real code: renaming package `pkg` to `pk` announces the
+sibling module `pkgextra.py` as `pkextra.py` -/
+theorem to_path_string_prefix_witness :
+    toPathStr [("/p/pkg".toList, "/p/pk".toList)] "/p/pkgextra.py".toList = "/p/pkextra.py".toList := by
+  decide
+
+theorem to_path_mode_known : Gen.C07.toPathMode ∈ ["string-prefix", "components"] := by decide
+
 /-! ## exception contract -/
 
 /-- shape of the source the model relies on (a source edit breaks this) -/
